@@ -11,14 +11,16 @@ from . import core
 from . import c08_sched as S
 
 PROP = "C08"
-LEAN_TARGETS = ["Asynkit.Props.C08"]
-PROPS_FILES = ["Asynkit/Props/C08.lean"]
+LEAN_TARGETS = ["Asynkit.Props.C08", "Asynkit.Lemmas.GenEqC08"]
+PROPS_FILES = ["Asynkit/Props/C08.lean", "Asynkit/Lemmas/GenEqC08.lean"]
 DRIVERS = ["Sched"]
 TRUSTED = [
     "Lean 4.33 kernel; axioms ⊆ {propext, Classical.choice, Quot.sound} (audited per theorem each run)",
     "hand-written models Asynkit/Model/{Deque,Sched}.lean (+ the container models Heap/PQ/PosPQ), tied to "
     "src/asynkit/{scheduling.py,tools.py,loop/default.py,loop/eventloop.py,loop/extensions.py,"
     "experimental/priority.py} by the differential correspondence of this run (lean/Drivers/Sched.lean)",
+    "translator/py2lean.py regenerates Asynkit/Gen/Sched.lean from the source on every run (deque_pop, queue_find, "
+    "call_pos statement by statement); Lemmas/GenEqC08.lean proves them equal to the Model/Deque definitions",
     "modelled, not verified: collections.deque rotate/popleft/pop/append/remove/insert (remove takes the first "
     "equal element, insert clamps like list.insert); asyncio call_soon appends one Handle, Task.__step "
     "re-schedules itself with call_soon on a bare yield, _run_once pops handles from the left; "
